@@ -119,6 +119,19 @@ def variant(v, f, order, flips, renum):
     return v2, f2, perm
 
 
+def add_unused_vertices(v2, f2, perm, where, kind, scale):
+    """insert vertices that no face refers to at the given indices of the vertex array (faces renumbered)"""
+    n_new = len(v2) + len(where)
+    new_index = [i for i in range(n_new) if i not in where]           # old index k -> new_index[k]
+    remap = np.array(new_index)
+    v3 = np.empty((n_new, 3))
+    v3[remap] = v2
+    c0 = v2.mean(axis=0)
+    for j, w in enumerate(where):
+        v3[w] = c0 + (0.011 * (j + 1) * scale, -0.007 * scale, 0.005 * scale) if kind == "inside" else c0 + (10.0 + j) * scale
+    return v3, remap[f2], remap[perm]
+
+
 def run_orient(c):
     name, scale = c["mesh"], c.get("scale", 1.0)
     v, f = meshes()[name]
@@ -127,12 +140,34 @@ def run_orient(c):
     order = c["order"]
     flips = [i for i in range(nf) if (c["flipmask"] >> i) & 1]
     v2, f2, perm = variant(v, f, order, flips, c["renum"])
+    if c.get("unused"):
+        v2, f2, perm = add_unused_vertices(v2, f2, perm, c["unused"], c.get("unused_where", "inside"), scale)
     try:
         with common.time_limit(60):
-            m = build(v2, f2)
+            if c.get("hull"):
+                import magpylib as magpy
+
+                m = magpy.magnet.TriangularMesh.from_ConvexHull(
+                    points=v2, polarization=(0.3, -0.2, 0.8), check_open="ignore", check_disconnected="ignore",
+                    check_selfintersecting="ignore", reorient_faces="ignore")
+            else:
+                m = build(v2, f2)
     except Exception as e:
         return f"raised {type(e).__name__}: {e}"[:200]
     problems = []
+    if c.get("hull"):
+        # faces come from the hull algorithm: only statuses, volume and field are defined by the construction
+        if signed_volume(np.array(m.vertices), np.array(m.faces)) <= 0:
+            problems.append("signed-volume-not-positive")
+        for k in ("open", "disconnected", "selfintersecting"):
+            if getattr(m, "status_" + k) is not False:
+                problems.append(f"status_{k}={getattr(m, 'status_' + k)}")
+        if not problems:
+            H = m.getH(outside_points(v))
+            R = ref_H(name, scale)
+            if np.max(np.abs(H - R)) > 1e-10 * np.max(np.abs(R)):
+                problems.append("hull-field-differs")
+        return ";".join(problems) if problems else None
     truth = oriented_set(perm[np.array(f)])
     got = oriented_set(m.faces)
     if got != truth:
@@ -305,6 +340,22 @@ def enumerate_cases(tier):
                             continue
                         cases.append({"part": "orient", "mesh": name, "order": order, "flipmask": int(mask), "renum": renum,
                                       "field": mask % 64 == 1, "full": mask % 16 == 0})
+    # vertices that no face refers to (e.g. interior points kept by from_ConvexHull, filtered meshes)
+    for name in ("tetra", "cube", "octa", "Lprism"):
+        v, f = M[name]
+        nf, nv = len(f), len(v)
+        base = list(range(nf))
+        for where in ([0], [nv // 2], [nv], [1, nv // 2 + 1], [0, nv + 1]):
+            for kind in ("inside", "far"):
+                for order in (base, base[::-1]):
+                    for mask in (0, 1, 5, (1 << nf) - 1):
+                        cases.append({"part": "orient", "mesh": name, "order": order, "flipmask": mask, "renum": list(range(nv)),
+                                      "unused": where, "unused_where": kind, "field": True, "full": True})
+            if name != "Lprism":
+                cases.append({"part": "orient", "mesh": name, "order": base, "flipmask": 0, "renum": list(range(nv)),
+                              "unused": where, "unused_where": "inside", "hull": True})
+                cases.append({"part": "orient", "mesh": name, "order": base, "flipmask": 0, "renum": list(range(nv))[::-1],
+                              "unused": where, "unused_where": "inside", "hull": True})
     scales = [1e-3, 1.0, 1e2]
     # open meshes: every subset of <= 2 deleted faces
     for name in ("tetra", "cube", "octa", "Lprism"):
